@@ -86,6 +86,18 @@ def ghostAt : Nat → Ghost → List Op → List Obs → Option (Ghost × Op × 
     | none => none
   | _, _, _, _ => none
 
+/-- sizes beyond the small bound are histogrammed in buckets around the usual thresholds -/
+def bucket (name : String) (exact : Nat) (n : Nat) : String :=
+  if n ≤ exact then s!"{name}{n}"
+  else if n ≤ 32 then s!"{name}{exact + 1}_32"
+  else if n ≤ 64 then s!"{name}33_64"
+  else if n ≤ 128 then s!"{name}65_128"
+  else s!"{name}129plus"
+
+def ascending : List Nat → Bool
+  | a :: b :: r => decide (a ≤ b) && ascending (b :: r)
+  | _ => true
+
 def tagsOf (ops : List Op) (os : List Obs) : List String :=
   let g := ghostEnd {} ops os
   let casc := os.filterMap fun o => match o.res with | .retracted c => some c.length | _ => none
@@ -108,7 +120,15 @@ def tagsOf (ops : List Op) (os : List Obs) : List String :=
   ++ (if retrDerived then ["retract_derived"] else [])
   ++ (if survivor then ["survivor"] else [])
   ++ (if os.any (fun o => o.res == .err) then ["err"] else [])
-  ++ [s!"facts{facts}", s!"ops{ops.length}"]
+  -- the regimes beyond the small bound: deep cascades, long sessions, wide / unsorted premise lists
+  ++ (if maxc ≥ 33 then ["cascade33plus"] else [])
+  ++ (if maxc ≥ 65 then ["cascade65plus"] else [])
+  ++ (if facts - g.pres.length ≥ 65 then ["gone65plus"] else [])
+  ++ (if facts - g.pres.length ≥ 129 then ["gone129plus"] else [])
+  ++ (if g.js.any (fun j => j.premises.length ≥ 5) then ["wide5plus"] else [])
+  ++ (if g.js.any (fun j => j.premises.length ≥ 5 && !ascending j.premises) then ["wide_unsorted"] else [])
+  ++ (if g.js.any (fun j => !ascending j.premises) then ["premises_unsorted"] else [])
+  ++ [bucket "facts" 8 facts, bucket "ops" 10 ops.length]
   ++ (if g.wf && maxc ≥ 1 then ["nontrivial"] else [])
 
 /-- the harness appends `!query` / `!twin` / `!listing` to a step's result when two public views
